@@ -15,9 +15,9 @@ Inductive ins_blanks : list str -> list str -> Prop :=
 Lemma ins_blanks_app_l pre a b : Forall (fun l => l = []) pre -> ins_blanks a b -> ins_blanks (pre ++ a) b.
 Proof. induction 1 as [|x pre Hx _ IH]; intros H; cbn; [assumption|]. subst x. constructor. now apply IH. Qed.
 
-Theorem preprocess_lines_only_inserts lines : forall prev, ins_blanks (preprocess_lines prev lines) lines.
+Theorem preprocess_lines_only_inserts lines : forall prev inb, ins_blanks (preprocess_lines prev inb lines) lines.
 Proof.
-  induction lines as [|line rest IH]; intros prev; cbn [preprocess_lines]; [constructor|].
+  induction lines as [|line rest IH]; intros prev inb; cbn [preprocess_lines]; [constructor|].
   apply ins_blanks_app_l.
   - destruct prev as [pl|]; [|constructor].
     apply Forall_app. split; match goal with |- Forall _ (if ?c then _ else _) => destruct c end; repeat constructor.
@@ -43,19 +43,88 @@ Proof. unfold bad_pair. rewrite nil_not_tag_only, nil_not_block. destruct (blank
 Lemma bad_pair_nil_l y : bad_pair [] y = false.
 Proof. unfold bad_pair. now rewrite nil_blank. Qed.
 
-Theorem preprocess_lines_separates lines : forall prev,
-  adjacent_ok prev (preprocess_lines prev lines) = true.
+(* a tag line is not a list or table line: every tag opener of the source (Gen/Consts.v, re-evaluated on each run) begins with a
+   character that is neither a space, a pipe, a bullet nor a digit *)
+Definition open_delims_cert : bool :=
+  forallb (fun d => match d with
+                    | c :: _ => negb (is_space c || (c =? 124)%N || is_bullet c || is_pydigit c)
+                    | [] => false
+                    end) tag_open_delims.
+
+Lemma startswith_head s d : startswith s d = true -> d <> [] -> exists c t, s = c :: t /\ hd 0%N d = c.
 Proof.
-  induction lines as [|line rest IH]; intros prev; cbn [preprocess_lines]; [reflexivity|].
-  destruct prev as [pl|]; cbn [app adjacent_ok]; [|apply IH].
-  destruct (negb (blank pl) && is_tag_only_line pl && line_is_block_content line) eqn:E1;
-  destruct (negb (blank pl) && line_is_block_content pl && is_tag_only_line line) eqn:E2;
-    cbn [app adjacent_ok]; rewrite ?bad_pair_nil_r, ?bad_pair_nil_l; cbn [negb andb]; try apply IH.
-  (* no blank line inserted: the pair itself is fine *)
-  rewrite IH, andb_true_r. unfold bad_pair.
-  destruct (blank pl); cbn [negb andb] in *; [reflexivity|].
-  rewrite E1, E2. reflexivity.
+  destruct d as [|x d']; [congruence|]. destruct s as [|c t]; [discriminate|]. cbn [startswith hd].
+  intros H _. destruct (N.eqb_spec c x) as [->|Hn]; [exists x, t; auto|].
+  cbn in H. apply N.eqb_neq in Hn. rewrite N.eqb_sym in Hn. rewrite Hn in H. discriminate.
 Qed.
+
+Lemma tag_only_not_block l : open_delims_cert = true -> is_tag_only_line l = true -> line_is_block_content l = false.
+Proof.
+  intros C H. unfold is_tag_only_line in H. destruct l as [|c r]; [discriminate|].
+  destruct (is_space c) eqn:Es; [discriminate|].
+  apply andb_true_iff in H as [H _]. apply andb_true_iff in H as [_ Hs].
+  (* strip keeps the first character, which is not a space *)
+  assert (Hstrip : exists t, strip (c :: r) = c :: t).
+  { unfold strip. cbn [lstrip]. rewrite Es. unfold rstrip.
+    destruct (rstrip_decomp (c :: r)) as [w [_ Ew]]. unfold rstrip in Ew.
+    destruct (rev (lstrip (rev (c :: r)))) as [|c' t'] eqn:E.
+    - exfalso. rewrite app_nil_l in Ew. subst w.
+      assert (A : all_space (c :: r) = true) by (destruct (rstrip_decomp (c :: r)) as [w' [Hw' E']]; unfold rstrip in E'; rewrite E in E'; cbn in E'; now subst w').
+      cbn in A. rewrite Es in A. discriminate.
+    - cbn in Ew. injection Ew as -> _. now exists t'. }
+  destruct Hstrip as [t Et]. rewrite Et in Hs.
+  unfold starts_any in Hs. apply existsb_exists in Hs as [d [Hd Hst]].
+  unfold open_delims_cert in C. rewrite forallb_forall in C. specialize (C d Hd).
+  destruct d as [|x d']; [discriminate|].
+  destruct (startswith_head (c :: t) (x :: d') Hst ltac:(discriminate)) as [c2 [t2 [E2 Eh]]].
+  injection E2 as <- _. cbn [hd] in Eh. subst x.
+  apply negb_true_iff in C. apply orb_false_iff in C as [C Cd]. apply orb_false_iff in C as [C Cb]. apply orb_false_iff in C as [_ Cp].
+  unfold line_is_block_content, line_is_table_row, line_is_list_item. cbn [lstrip]. rewrite Es.
+  cbn [startswith]. rewrite N.eqb_sym in Cp. rewrite Cp. cbn [andb orb]. rewrite Cb, Cd. reflexivity.
+Qed.
+
+(* the flag is set whenever the previous line is a (non-tag) list or table line *)
+Definition flag_ok (prev : option str) (inb : bool) : Prop :=
+  match prev with
+  | Some pl => line_is_block_content pl = true -> blank pl = false -> is_tag_only_line pl = false -> inb = true
+  | None => True
+  end.
+
+Lemma next_flag_ok inb line : flag_ok (Some line) (next_in_block inb line).
+Proof.
+  unfold flag_ok, next_in_block. intros Hb Hbl Ht. rewrite Hbl, Ht, Hb. reflexivity.
+Qed.
+
+Theorem preprocess_lines_separates_gen (C : open_delims_cert = true) lines : forall prev inb, flag_ok prev inb ->
+  adjacent_ok prev (preprocess_lines prev inb lines) = true.
+Proof.
+  induction lines as [|line rest IH]; intros prev inb F; cbn [preprocess_lines]; [reflexivity|].
+  pose proof (IH (Some line) (next_in_block inb line) (next_flag_ok inb line)) as IH'.
+  destruct prev as [pl|]; cbn [app adjacent_ok]; [|exact IH'].
+  destruct (negb (blank pl) && is_tag_only_line pl && line_is_block_content line) eqn:E1;
+  destruct (negb (blank pl) && inb && is_tag_only_line line) eqn:E2;
+    cbn [app adjacent_ok]; rewrite ?bad_pair_nil_r, ?bad_pair_nil_l; cbn [negb andb]; try exact IH'.
+  (* no blank line inserted: the pair itself is fine *)
+  rewrite IH', andb_true_r. unfold bad_pair.
+  destruct (blank pl) eqn:Eb; cbn [negb andb] in *; [reflexivity|].
+  rewrite E1. cbn [orb].
+  destruct (line_is_block_content pl) eqn:Ebc; [|reflexivity]. cbn [andb].
+  destruct (is_tag_only_line line) eqn:Et; [|reflexivity].
+  (* pl is a list/table line and the next line a tag line: the flag must have been set, so a blank line was inserted *)
+  destruct (is_tag_only_line pl) eqn:Etp.
+  - rewrite (tag_only_not_block pl C Etp) in Ebc. discriminate.
+  - cbn [flag_ok] in F. rewrite (F Ebc Eb Etp) in E2. discriminate.
+Qed.
+
+Theorem preprocess_lines_separates lines :
+  adjacent_ok None (preprocess_lines None false lines) = true.
+Proof. apply preprocess_lines_separates_gen; [vm_compute; reflexivity|exact I]. Qed.
+
+(* the case the repair c8c087c was made for: the last item of the list goes on over a second line *)
+Example continued_item_separated :
+  preprocess_lines None false [[123;37;32;102;32;37;125]; [45;32;97]; [32;32;98]; [123;37;32;47;102;32;37;125]]%N
+  = [[123;37;32;102;32;37;125]; []; [45;32;97]; [32;32;98]; []; [123;37;32;47;102;32;37;125]]%N.
+Proof. vm_compute. reflexivity. Qed.
 
 (* ---- a whitespace-free piece (a placeholder) ends up inside exactly one token ---- *)
 Definition infix (w s : str) : Prop := exists a b, s = a ++ w ++ b.
